@@ -378,6 +378,7 @@ func init() {
 			ruleCC3(c)
 			ruleCC4(c)
 			ruleCC5(c, "CC-5")
+			ruleCC6(c)
 			ruleLEX4(c)
 			ruleLEX1(c)
 			ruleLEX7(c)
